@@ -1084,7 +1084,9 @@ class Stream(AbstractStream):
     def F_vol(self) -> float:
         """Total volumetric flow rate [m3/hr]."""
         F_mol = self.F_mol
-        return 1000. * self.V * F_mol if F_mol else 0.
+        if F_mol: return 1000. * self.V * F_mol
+        # No net molar flow: the mixture molar volume is undefined, but the flows may still cancel (negative flows)
+        return self.ivol.data.sum() if self._imol.data.any() else 0.
     @F_vol.setter
     def F_vol(self, value):
         F_vol = self.F_vol
